@@ -241,10 +241,10 @@ CHECKS["C16"] = dict(
     level="fault_enumeration", engine="E-FAULT",
     technique="exhaustive fault-point enumeration on the implementation: every write/writev of each scenario fails with ENOSPC / EIO or is cut short, once or persistently, with the documented recovery protocol as driver",
     level_text="45 scenarios (the C15 ones for named outputs plus descriptor outputs). For every write call k of the trace x {ENOSPC, EIO, short count} x {only call k, every later call to the same output}: a forked child runs the history reacting as documented (on the first exception: rotate_output(healthy, false), write_block(), destroy; otherwise rotate_output(healthy, true)). Clause 1: every output closed by a rotate_output that returned normally after the same history as the fault-free run must hold exactly the fault-free bytes. Clause 2: after an exception from a block write the buffered item count is unchanged, the rotate_output to the healthy destination returns normally and the recovery output is a complete valid file holding exactly the records of the failed block.",
-    level_note="A write that keeps returning 0 is not injected (libstdc++ retries forever; says nothing about c-dns). Failures of rename/open/close are outside the enumerated faults. Known findings D12a-c are listed in known_findings.json by (clause, sink kind, compression, whether the faulted output is the one closed).",
+    level_note="A write that reports 0 bytes is injected for descriptor outputs only (fault kind 4, persistent, 5 s watchdog: a hang is a violation); for named outputs libstdc++ itself retries for ever, which says nothing about c-dns. Failures of rename/open/close are outside the enumerated faults. Known findings D12a-c are listed in known_findings.json by (clause, sink kind, compression, whether the faulted output is the one closed).",
     stages=[dict(harness="fault", variant="plain", args=["--mode", "fault"], link=["-rdynamic"])],
     rule="(scenario, k, fault kind, persistence) tuples enumerated exhaustively; non-trivial = the injected point was reached; unreachable points are harness errors",
-    bound_quick="all 45 scenarios, every write call, 3 fault kinds x 2 persistence modes", bound_thorough="same",
+    bound_quick="all 45 scenarios, every write call, 3 fault kinds x 2 persistence modes (+ zero-byte writes on the 15 descriptor scenarios)", bound_thorough="same",
     assumptions=["C16 clause 1 is read as 'no silent loss': an exception no later than the rotate_output that closes the output (DESIGN 8.2)"],
 )
 ENGINES.append(dict(name="E-FAULT", path="harness/fault.cpp", serves_properties=["C15", "C16"], kind_free_text="exhaustive crash-point / write-fault enumeration with interposed write, writev, rename"))
